@@ -538,6 +538,21 @@ namespace hgraph::ts_data_plan_factory_detail
                 return ops.tracking_impl(ops.context, values_.value_memory(slot))->last_modified_time != MIN_DT;
             }
 
+            // A key erased and inserted again within one cycle resurrects its slot with
+            // the child's content. When that child was already written in this cycle its
+            // next write coalesces (record_modified reports no change), so the parent is
+            // never told again: restore the per-key modified bit here, otherwise the
+            // cycle's delta omits a key whose value changed.
+            void restore_resurrected_child_modified(std::size_t slot, DateTime modified_time)
+            {
+                const auto &ops = element_type_.ops_ref();
+                if (ops.tracking_impl(ops.context, values_.value_memory(slot))->last_modified_time == modified_time &&
+                    child_has_current_value(slot))
+                {
+                    modified_.set(slot);
+                }
+            }
+
             void reserve(std::size_t capacity)
             {
                 keys_.reserve_to(capacity);
@@ -564,11 +579,13 @@ namespace hgraph::ts_data_plan_factory_detail
                 {
                     removed_.reset(result.slot);
                     value_published_.set(result.slot);
+                    restore_resurrected_child_modified(result.slot, modified_time);
                 }
                 else if (child_valid(result.slot))
                 {
                     value_published_.set(result.slot);
                     added_.set(result.slot);
+                    restore_resurrected_child_modified(result.slot, modified_time);
                 }
                 (void)key_set_tracking_.record_modified(modified_time);
                 return mutation_result(result.slot, result.constructed);
@@ -591,11 +608,13 @@ namespace hgraph::ts_data_plan_factory_detail
                 {
                     removed_.reset(result.slot);
                     value_published_.set(result.slot);
+                    restore_resurrected_child_modified(result.slot, modified_time);
                 }
                 else if (child_valid(result.slot))
                 {
                     value_published_.set(result.slot);
                     added_.set(result.slot);
+                    restore_resurrected_child_modified(result.slot, modified_time);
                 }
                 (void)key_set_tracking_.record_modified(modified_time);
                 return mutation_result(result.slot, result.constructed);
